@@ -255,6 +255,9 @@ class C19(PropBase):
                 size = rng.below(1 << 24)
             if kind == 0:
                 p = rng.choice([0, 1, 2, 4, 8, 0x10, 0x20, 0x40, 0x80, 0x104, 0x202, 0x404])
+                if rng.chance(1, 8):
+                    # any 32-bit protection value: several access bits at once, bits outside MemoryProtection (from_bits_truncate drops them)
+                    p = rng.choice([rng.below(1 << 32), rng.below(1 << 12), 0xffffffff, 0xfffff800, 0x800 | rng.below(256)])
                 regs.append((a, size, p))
             else:
                 hi = min(U64, a + size - 1) if size else max(0, a - 1)
